@@ -223,7 +223,12 @@ Definition demo_items : list (key * pyval) :=
     [(10,1);(20,2);(30,3);(40,4);(50,5);(5,6);(15,7);(25,8);(35,9);(45,10);(55,11);(1,12);(2,13);
      (3,14);(60,15);(61,16);(30,17);(62,18);(12,19);(13,20);(14,21);(41,22)]%Z.
 
-Definition demo_state : res pstate := do s <- py_new 4; py_update s demo_items.
+Definition demo_init : pstate := mkP 4 (PLeaf 0%N 4 [] [] NULL) 0%N None 1%N.
+
+Lemma demo_init_new : py_new 4 = Ok demo_init.
+Proof. reflexivity. Qed.
+
+Definition demo_state : res pstate := py_update demo_init demo_items.
 
 (* the decidable components of the conclusion of [py_setitem_spec], checked by computation
    along the whole run *)
@@ -243,10 +248,9 @@ Example demo_three_levels_inv : exists s,
 Proof.
   destruct demo_three_levels as (s & E & Hh & _).
   exists s. split; [exact E|].
-  unfold demo_state in E. destruct (py_new 4) as [s0| | |] eqn:E0; try discriminate.
-  cbn [bind] in E. pose proof (py_new_PyInv _ E0) as I0.
+  pose proof (py_new_PyInv _ demo_init_new) as I0.
   destruct (py_update_setitems demo_items I0) as (s' & E' & I' & _).
-  rewrite E in E'. inversion E'; subst s'.
+  unfold demo_state in E. rewrite E in E'. injection E' as <-.
   split; [exact I'|]. split; [exact Hh|].
   intros k v. destruct (py_setitem_spec k v I') as (s2 & E2 & I2 & C2 & _).
   exists s2. auto.
